@@ -14,6 +14,41 @@ out.append('## 5. Per-property: as built\n\n'
            '`harness/props/cxx.py`).\n\n')
 manifest = json.loads((V / 'MANIFEST.json').read_text()) if (V / 'MANIFEST.json').exists() else {'checks': []}
 claimed = {c['property_id'] for c in manifest.get('checks', [])}
+# summary table
+out.append('Summary (numbers from the last committed quick run of each check, `evidence/Cxx.json`):\n\n'
+           '| property | theorems audited | cases (quick) | non-trivial | defects repaired | seeded changes: failing input by own check / by another check / not applicable any more |\n'
+           '|---|---|---|---|---|---|\n')
+_kf = {}
+for f in (V / 'known_findings.d').glob('*.json'):
+    try:
+        e = json.loads(f.read_text()); _kf[e.get('property')] = _kf.get(e.get('property'), 0) + 1
+    except Exception:
+        pass
+_sd = {}
+if (V / 'seeded').is_dir():
+    for d in (V / 'seeded').iterdir():
+        mf = d / 'meta.json'
+        if not mf.exists():
+            continue
+        pid = d.name.split('-')[0]
+        ev = json.loads(mf.read_text()).get('evaluation', {})
+        own = other = False
+        for prop, rs in (ev.get('checks') or {}).items():
+            hit = any(r.get('exit') == 1 and 'no-failing-input-found' not in r.get('line', '') for r in rs)
+            if hit and prop == pid: own = True
+            elif hit: other = True
+        c = _sd.setdefault(pid, [0, 0, 0, 0])
+        if ev.get('note'): c[2] += 1
+        elif own: c[0] += 1
+        elif other: c[1] += 1
+        else: c[3] += 1
+for p in props:
+    ef = V / 'evidence' / f'{p["id"]}.json'
+    cov = json.loads(ef.read_text()).get('coverage', {}) if ef.exists() else {}
+    sd = _sd.get(p['id'], [0, 0, 0, 0])
+    out.append(f'| {p["id"]} | {cov.get("discharged", "-")} | {cov.get("evaluations", "-")} | {cov.get("distinct_nontrivial", "-")} | '
+               f'{_kf.get(p["id"], 0)} | {sd[0]} / {sd[1]} / {sd[2]}' + (f' (+{sd[3]} only tie-broken)' if sd[3] else '') + ' |\n')
+out.append('\n')
 for p in props:
     f = V / 'design.d' / f'{p["id"]}.md'
     out.append(f'### {p["id"]} — {p["title"]}\n\n')
